@@ -230,6 +230,8 @@ def check(prog, res, tier):
         return fails
     res.add(runs.judge('C12.e', 'the PDS entries to pack are selected by their key only, not by their value', func_where(pfi),
                        "[key for key in dict_values if key.startswith('PDS')]", chk_sel, rule='C12.e.select'))
+    for ob in common.state_obs(res, 'C12.a', func_where(pfi), [('_pds_to_de', runs)], 'PDS packing'):
+        res.add(ob)
 
     # the same decided by constant propagation: the packer folded on the three value classes '' / '0' / ordinary text
     def entry_k(it):
